@@ -47,7 +47,7 @@ func (c11) Extra() map[string]any {
 	return e
 }
 
-var c11Faults = []string{"skip-reset-w", "skip-reset-b", "skip-reset-both", "skip-backprop", "dup-update", "reorder-bw", "bad-update", "skip-update-w", "skip-update-b", "bad-call"}
+var c11Faults = []string{"skip-reset-w", "skip-reset-b", "skip-reset-both", "skip-backprop", "dup-update", "reorder-bw", "bad-update", "skip-update-w", "skip-update-b", "bad-call", "restore"}
 
 func (c11) Generate(r *sim.Rand, tier string) *sim.Scenario {
 	sc := &sim.Scenario{Cfg: map[string]float64{}, Data: map[string][]float64{}}
@@ -105,6 +105,9 @@ func (c11) Generate(r *sim.Rand, tier string) *sim.Scenario {
 	sc.Cfg["rngseed"] = float64(r.Intn(1 << 30))
 	if r.Bool(0.3) {
 		sc.Cfg["reread"] = 1
+	}
+	if r.Bool(0.12) {
+		sc.Cfg["tied"] = 1
 	}
 	if r.Bool(0.25) {
 		sc.Cfg["init"] = 1
@@ -515,12 +518,23 @@ func (c11) execOne(sc *sim.Scenario) *sim.Outcome {
 		out.Fail("model-assembly", "FC.Weights() did not return two addressable parameters")
 		return fin()
 	}
+	if sc.Cfg["tied"] == 1 {
+		// one tensor object in both slots (both have shape [Outputs]): it plays both
+		// roles of the formula, so dLoss/dw is the sum of the two roles' derivatives
+		// until the first update puts two new tensors into the slots
+		*weights[1].Value = *weights[0].Value
+		out.Faults["pointer-swap/tied-parameters"]++
+	}
+	w0obj, b0obj := *weights[0].Value, *weights[1].Value
 	// a trainer usually asks for the pointers once; with Cfg["reread"]=1 it
 	// asks again before every use
 	reread := sc.Cfg["reread"] == 1
 	slot := func(k int) *tensor.Tensor {
 		if reread {
-			return fc.Weights()[k].Value
+			if ws := fc.Weights(); len(ws) == 2 && ws[k].Value != nil {
+				return ws[k].Value
+			}
+			panic("FC.Weights() no longer returns two addressable parameters")
 		}
 		return weights[k].Value
 	}
@@ -545,6 +559,18 @@ func (c11) execOne(sc *sim.Scenario) *sim.Outcome {
 			return out
 		}
 		where := fmt.Sprintf("step %d (mini-batch %d, fault %q)", si, st.N, st.Tag)
+		if st.Tag == "restore" && si > 0 {
+			// roll back to the checkpoint: the initial tensor objects are put back
+			// into the slots as fresh tracked leaves and training goes on with the
+			// same optimizer, layer, activation and loss objects
+			*slot(0), *slot(1) = w0obj, b0obj
+			w0obj.ResetGradContext(true)
+			b0obj.ResetGradContext(true)
+			fresh = [2]bool{true, true}
+			awaitingRecovery = false
+			out.Faults["pointer-swap/restore-initial-objects"]++
+			faultFired = true
+		}
 		W, B, ok := readW()
 		if !ok {
 			out.Fail("weight-shape", "%s: a weight is nil or changed its shape", where)
@@ -557,6 +583,13 @@ func (c11) execOne(sc *sim.Scenario) *sim.Outcome {
 		if near {
 			out.Discard = "near-nondifferentiable"
 			return out
+		}
+		if *slot(0) == *slot(1) {
+			for o := 0; o < cfg.O; o++ {
+				gW[o], mW[o], aW[o] = gW[o]+gB[o], mW[o]+mB[o], aW[o]+aB[o]
+				gB[o], mB[o], aB[o] = gW[o], mW[o], aW[o]
+			}
+			out.Probes["step-with-tied-parameters"]++
 		}
 		for _, v := range append(append([]float64{refLoss}, gW...), gB...) {
 			if math.IsNaN(v) || math.IsInf(v, 0) {
